@@ -576,6 +576,8 @@ def _bulk(acc, keys, nontrivial, label, fails):
 
 def run_gcirc(acc, task):
     P1, P2, same, keys = gcirc_pairs(task['col'], task['nra'], task['ndec'], task['kstep'], task['npa'])
+    k0 = len(P1) // 2
+    acc.sample({'layer': 'gcirc', 'units': 2, 'form': 'array', 'p1': P1[k0].tolist(), 'p2': P2[k0].tolist()})
     ref = {}
     for units in (2, 1, 0):
         for form in ('array', 'scalar'):
@@ -721,6 +723,8 @@ def run_task(task):
         run_munu(acc, task)
     else:
         raise ValueError(layer)
+    if not acc.samples:
+        acc.sample({'shard': task})
     return acc
 
 
